@@ -33,6 +33,22 @@ def make_case(i, rng, tier):
         e = dict(p, id="events", consumer="events")
         return {"input": {"root": inp["root"], "cc": None, "enc": None, "label": inp["label"], "family": "wellformed", "orig": ""},
                 "faults": [], "tasks": [p, e], "schedule": {"policy": "sequential"}}
+    if rng.random() < 0.012:
+        # two captures full of *failed* responses (different response codes: format one / zero, warnings, vendor), printed
+        # by two printers that are stepped row by row in turn: whatever one printer builds for the bit rows of a response
+        # code must not be shared with the other one
+        from .. import gen as _gen
+        caps = []
+        for _ in range(2):
+            k = _gen.Knobs(rng)
+            k.p_fail, k.p_sessions, k.max_buf, k.max_list = 1.0, 0.0, min(k.max_buf, 4), min(k.max_list, 1)
+            caps.append(common.gen_input(rng, ("stream", None), k))
+        a, b = caps
+        p = common.spec("pretty", a["root"], a["data"], None, None, strict=True, consumer="pretty", source="bytes")
+        e = common.spec("events", a["root"], a["data"], None, None, strict=True, consumer="events", source="bytes")
+        q = common.spec("by-pretty", b["root"], b["data"], None, None, strict=True, consumer="pretty", source="bytes")
+        return {"input": {"root": a["root"], "cc": None, "enc": None, "label": "failed-responses:" + a["label"], "family": "wellformed", "orig": bytes(a["data"]).hex()},
+                "faults": [], "tasks": [p, q, e], "schedule": {"policy": "round_robin"}}
     inp, data, recs, fam = common.gen_malformed(rng, i, p_wellformed=0.45)
     strict = rng.random() < 0.4
     p = common.spec("pretty", inp["root"], data, inp["cc"], inp["enc"], strict=strict, consumer="pretty")
@@ -260,6 +276,22 @@ def check(case):
         clause = "C14.c" if "bit row" in msg else "C14.b"
         what = "bits" if clause == "C14.c" else "empty-list" if "list without elements" in msg else ("warning" if "warning" in msg.lower() and "Warning:" in msg else "buffer" if "byte buffer" in msg else "row")
         res.v(clause, "%s:%s:%s" % (clause, what, mode), "%s: %s" % (label, msg))
+    # C14.h: the rows are a function of the events.  When other printers ran in between, the recorded events are printed
+    # once more, alone; the rows must be the same (bit rows and their descriptions included - whatever they say, they say
+    # it about *this* stream's values)
+    if ok and tp.exc is None and "by-pretty" in w.tasks and len(events) < 20000:
+        from tpmstream.io.pretty import Pretty
+        try:
+            again = [ANSI.sub("", ln_) for ln_ in Pretty.unmarshal(iter(events))]
+        except Exception as x_:  # noqa - the first printing of the same events completed
+            again = ["<raised %s>" % type(x_).__name__]
+        mine = [ANSI.sub("", ln_) for ln_ in lines]
+        res.count("printed-again-alone")
+        if again != mine:
+            n_ = next((k_ for k_, (a_, b_) in enumerate(zip(mine, again)) if a_ != b_), min(len(mine), len(again)))
+            res.v("C14.h", "C14.h:rows-depend-on-other-printer:%s" % mode,
+                  "%s: the same events printed again alone give other rows than next to a second printer; row %d: %r vs alone %r" % (
+                      label, n_, " ".join((mine[n_] if n_ < len(mine) else "<end>").split())[:160], " ".join((again[n_] if n_ < len(again) else "<end>").split())[:160]))
     # C14.f: "its value column is the value's text form" - rows were compared with format(value) above; format(value) is
     # compared with the pinned text form of (declared type, integer) here, for valid values of the pinned types
     from ..layout import layout
